@@ -382,6 +382,51 @@ func checkLoadOrder(w *World, r *Result) {
 	if outVar == nil {
 		Undecided("LoadSources: success return not found")
 	}
+	ls, lsInfo := fi, info // LoadSources itself: where the patterns are built
+	// the matching back may live in a helper that returns the slice: `out, err := selectAll(pkgs, sourceFiles)`
+	for depth := 0; depth < 2; depth++ {
+		defs := defsIn(info, fi.Decl, outVar)
+		if len(defs) != 1 {
+			break
+		}
+		call, ok := ast.Unparen(defs[0]).(*ast.CallExpr)
+		if !ok {
+			break
+		}
+		h := w.Funcs[calleeOf(info, call)]
+		if h == nil || h.Decl.Body == nil || h.Pkg != fi.Pkg {
+			break
+		}
+		// which parameter of the helper receives the list of files
+		var hparam types.Object
+		k := 0
+		for _, f := range h.Decl.Type.Params.List {
+			for _, nm := range f.Names {
+				if k < len(call.Args) {
+					if id := identOf(call.Args[k]); id != nil && objOf(info, id) == param {
+						hparam = h.Pkg.TypesInfo.Defs[nm]
+					}
+				}
+				k++
+			}
+		}
+		if hparam == nil {
+			break
+		}
+		var hout types.Object
+		ast.Inspect(h.Decl.Body, func(x ast.Node) bool {
+			if ret, ok := x.(*ast.ReturnStmt); ok && len(ret.Results) >= 2 && es(ret.Results[len(ret.Results)-1]) == "nil" {
+				if id := identOf(ret.Results[0]); id != nil {
+					hout = objOf(h.Pkg.TypesInfo, id)
+				}
+			}
+			return true
+		})
+		if hout == nil {
+			break
+		}
+		fi, info, param, outVar = h, h.Pkg.TypesInfo, hparam, hout
+	}
 	sized := false
 	for _, d := range defsIn(info, fi.Decl, outVar) {
 		if call, ok := d.(*ast.CallExpr); ok && isBuiltinCall(info, call, "make") && len(call.Args) == 2 {
@@ -467,11 +512,11 @@ func checkLoadOrder(w *World, r *Result) {
 	r.cond(nilErr, "SHP-C17o", fi.Name, "a file found in no package is an error", fnPos(w, fi), "`if selected == nil { return …, error }`", "a file that matches no loaded package yields a nil entry instead of an error")
 	// patterns
 	pat := false
-	ast.Inspect(fi.Decl.Body, func(x ast.Node) bool {
+	ast.Inspect(ls.Decl.Body, func(x ast.Node) bool {
 		if as, ok := x.(*ast.AssignStmt); ok && len(as.Lhs) == 1 {
 			if _, ok := as.Lhs[0].(*ast.IndexExpr); ok {
 				if be, ok := as.Rhs[0].(*ast.BinaryExpr); ok && be.Op == token.ADD {
-					if tv := info.Types[be.X]; tv.Value != nil && constant.StringVal(tv.Value) == "file=" {
+					if tv := lsInfo.Types[be.X]; tv.Value != nil && constant.StringVal(tv.Value) == "file=" {
 						pat = true
 					}
 				}
@@ -479,7 +524,7 @@ func checkLoadOrder(w *World, r *Result) {
 		}
 		return true
 	})
-	r.cond(pat, "SHP-C17o", fi.Name, "one file= pattern per input", fnPos(w, fi), "patterns[i] = \"file=\" + sourceFile", "the load patterns are no longer one `file=` query per input file")
+	r.cond(pat, "SHP-C17o", ls.Name, "one file= pattern per input", fnPos(w, ls), "patterns[i] = \"file=\" + sourceFile", "the load patterns are no longer one `file=` query per input file")
 	// selectByFile compares whole paths
 	sb := w.MustFunc("analysis.selectByFile")
 	eq := false
